@@ -449,6 +449,9 @@ def gendrv_request(case, workdir, want=("pretty", "inspect")):
     req = {"id": case["id"], "schema_path": sp, "options": case.get("options", {}), "want": list(want)}
     if case.get("from_string", False):
         req["query_text"] = case["doc_text"]
+    elif case.get("query_file_from"):
+        # the SAME query file as an earlier case of the batch (same text), given to another schema
+        req["query_path"] = os.path.join(ind, "%s.query.graphql" % case["query_file_from"])
     else:
         qp = os.path.join(ind, "%s.query.graphql" % case["id"])
         with open(qp, "w", encoding="utf-8", newline="") as f:
